@@ -86,6 +86,20 @@ from mutwo import core_parameters as cp  # noqa: E402
 from mutwo import core_converters as cc  # noqa: E402
 
 
+class Voice(ce.Consecution, class_specific_side_attribute_tuple=("instruments",)):
+    """a user subclass with a mutable side attribute (the documented way to attach extras to a container)"""
+
+    def __init__(self, *args, instruments=None, **kwargs):
+        super().__init__(*args, **kwargs)
+        self.instruments = instruments if instruments is not None else []
+
+
+class Staff(ce.Concurrence, class_specific_side_attribute_tuple=("instruments",)):
+    def __init__(self, *args, instruments=None, **kwargs):
+        super().__init__(*args, **kwargs)
+        self.instruments = instruments if instruments is not None else []
+
+
 def gbuild(x, ev, du, te):
     """(l id dur tempo) | (s id tempo kids...) | (p id tempo kids...): equal ids = one object"""
     i = int(x[1])
@@ -97,11 +111,15 @@ def gbuild(x, ev, du, te):
             du[d] = cp.DirectDuration(1 + (d % 4)) if d % 2 else cp.RatioDuration(1 + (d % 3))
         o = ce.Chronon(du[d])
         o.pitch = i
+        o.pitch_list = [i, i + 12]          # a mutable parameter value
         kids = None
     else:
         t = int(x[2])
         kids = [gbuild(k, ev, du, te) for k in x[3:]]
-        o = (ce.Consecution if x[0] == "s" else ce.Concurrence)(kids, tag=f"t{i}")
+        if i % 3 == 0:
+            o = (Voice if x[0] == "s" else Staff)(kids, tag=f"t{i}", instruments=[f"instrument{i}"])
+        else:
+            o = (ce.Consecution if x[0] == "s" else ce.Concurrence)(kids, tag=f"t{i}")
     if t not in te:
         te[t] = [lambda: cp.DirectTempo(60 + t), lambda: cp.FlexTempo([[0, 60 + t], [2, 30], [3, 90, 1]]),
                  lambda: cp.FlexTempo([[0, 60], [1, 60]])][t % 3]()
@@ -131,6 +149,10 @@ def reach(e, acc=None):
         t = e.tempo
         if isinstance(e, ce.Chronon):
             acc[id(e.duration)] = e.duration
+        for extra in ("instruments", "pitch_list"):
+            v = e.__dict__.get(extra)
+            if isinstance(v, list):
+                acc[id(v)] = v
         if not (isinstance(e, ce.Envelope) and False):
             if id(t) not in acc:
                 if isinstance(t, ce.Envelope):
@@ -157,8 +179,9 @@ def deep_snap(e):
             return ("flex", tuple((round(float(p.duration) * TICK), p.tempo.bpm, p.curve_shape) for p in t))
         return ("direct", t.bpm)
     if isinstance(e, ce.Chronon):
-        return ("L", round(float(e.duration) * TICK), type(e.duration).__name__, e.tag, getattr(e, "pitch", None), tsnap(e.tempo))
-    return (type(e).__name__, e.tag, tsnap(e.tempo), tuple(deep_snap(c) for c in e))
+        return ("L", round(float(e.duration) * TICK), type(e.duration).__name__, e.tag, getattr(e, "pitch", None),
+                tuple(getattr(e, "pitch_list", ())), tsnap(e.tempo))
+    return (type(e).__name__, e.tag, tuple(getattr(e, "instruments", ())), tsnap(e.tempo), tuple(deep_snap(c) for c in e))
 
 
 def mutate_everything(e, salt):
@@ -166,9 +189,13 @@ def mutate_everything(e, salt):
     if isinstance(e, ce.Chronon):
         e.duration.add(salt)                 # in place on the duration object
         e.pitch = (getattr(e, "pitch", 0) or 0) + 1000 + salt
+        if isinstance(getattr(e, "pitch_list", None), list):
+            e.pitch_list.append(salt)        # in place on the parameter value
         e.tag = f"mut{salt}"
         mutate_tempo(e.tempo, salt)
         return
+    if isinstance(getattr(e, "instruments", None), list):
+        e.instruments.append(f"mut{salt}")   # in place on the side attribute
     e.tag = f"mut{salt}"
     mutate_tempo(e.tempo, salt)
     for c in list(e):
